@@ -433,7 +433,8 @@ func areaOtl(c *Ctx) {
 	nFL := c.N * 5 / 100
 	nGdef := c.N * 6 / 100
 	nSL := c.N * 6 / 100
-	nLL := c.N - nCov - nCd - nGsub - nGpos - nFL - nGdef - nSL
+	nGtab := c.N * 6 / 100
+	nLL := c.N - nCov - nCd - nGsub - nGpos - nFL - nGdef - nSL - nGtab
 
 	// ---- coverage
 	special := [][]otlRun{
@@ -600,6 +601,11 @@ func areaOtl(c *Ctx) {
 	// ---- GDEF
 	for i := 0; i < nGdef; i++ {
 		otlGenGdef(c, i)
+	}
+
+	// ---- whole GSUB tables
+	for i := 0; i < nGtab; i++ {
+		otlGenGtab(c, i)
 	}
 
 	// ---- script lists
@@ -1782,6 +1788,159 @@ func otlGenSL(c *Ctx, i int) {
 			o := c.Case(Verdict, "otl.sl.read", "data="+hx(m), true)
 			c.Stat("sl.read-outcome", "mutated:"+outcomeClass(o))
 		}
+	}
+}
+
+// ---------------------------------------------------------------- GSUB/GPOS table (header)
+
+func otlInfoFromFields(f Fields) *gtab.Info {
+	info := &gtab.Info{}
+	if f["sl"] != "nil" {
+		info.ScriptList = otlParseSL(f["sl"])
+	}
+	if f["fl"] != "nil" {
+		info.FeatureList = otlParseFL(f["fl"])
+	}
+	if f["ll"] != "nil" {
+		info.LookupList, _ = otlParseLL(f["ll"])
+	}
+	return info
+}
+
+func init() {
+	ops["otl.gtab.encode"] = func(f Fields) string {
+		return canonPanic(guard(func() string { return "ok:" + otlShowBytes(otlInfoFromFields(f).Encode()) }))
+	}
+	ops["otl.gtab.read"] = func(f Fields) string {
+		return canonPanic(guard(func() string {
+			info, err := gtab.Read(bytes.NewReader(f.Hex("data")), gtab.TypeGsub)
+			if err != nil {
+				return errKind(err)
+			}
+			fl := "nil"
+			if info.FeatureList != nil {
+				fl = otlShowFL(info.FeatureList)
+			}
+			ll := "nil"
+			if info.LookupList != nil {
+				parts := make([]string, len(info.LookupList))
+				for i, l := range info.LookupList {
+					ss := make([]string, len(l.Subtables))
+					for j, st := range l.Subtables {
+						ss[j] = otlShowSubtable(st)
+					}
+					parts[i] = fmt.Sprintf("%d/%d/%d/%s", l.Meta.LookupType, l.Meta.LookupFlags, l.Meta.MarkFilteringSet, strings.Join(ss, "&"))
+				}
+				ll = strings.Join(parts, "^")
+			}
+			return fmt.Sprintf("ok:sl=%s;fl=%s;ll=%s", otlShowSL(info.ScriptList), fl, ll)
+		}))
+	}
+}
+
+// otlGenGtab writes the cases for one whole GSUB table.
+func otlGenGtab(c *Ctx, i int) {
+	otlInitTags()
+	r := c.Rng
+	// script list
+	var sl []string
+	seen := map[[2]string]bool{}
+	for a := r.Intn(4); a > 0; a-- {
+		p := Pick(r, otlTagPairs)
+		if seen[p] {
+			continue
+		}
+		seen[p] = true
+		lg := "-"
+		if p[1] != "" {
+			lg = hx([]byte(p[1]))
+		}
+		sl = append(sl, fmt.Sprintf("%s:%s:%d:%s", hx([]byte(p[0])), lg, 65535, Pick(r, []string{"-", "0", "0.1"})))
+	}
+	var fl []string
+	for a := r.Intn(4); a > 0; a-- {
+		fl = append(fl, hx([]byte(Pick(r, []string{"liga", "kern", "ss01"})))+":"+Pick(r, []string{"-", "0", "0.1"}))
+	}
+	// lookup list: real GSUB 1.1 subtables only, so that the real reader can decode them
+	var ll []string
+	for a := r.Intn(4); a > 0; a-- {
+		n := r.Range(0, 3)
+		subs := make([]string, n)
+		for k := range subs {
+			subs[k] = fmt.Sprintf("g:%d:%d", r.Intn(65536), r.Intn(65536))
+		}
+		ll = append(ll, fmt.Sprintf("1/%d/%d/%s", Pick(r, []int{0, 1, 16}), r.Intn(3), strings.Join(subs, "|")))
+	}
+	part := func(xs []string, sep string) string {
+		if len(xs) == 0 && r.Chance(1, 2) {
+			return "nil"
+		}
+		return strings.Join(xs, sep)
+	}
+	what := "regular"
+	args := fmt.Sprintf("sl=%s fl=%s ll=%s", part(sl, ","), part(fl, "|"), part(ll, ";"))
+	switch i {
+	case 0, 1: // the lookup list starts at 65534 (written) / 65536 (refused): 10 + 2 (scripts) + feature list
+		// feature list: 2 + 6n + 4n bytes for n features without lookups, plus 2 per lookup index
+		n := 6552 // 2 + 10*6552 = 65522 -> lookup list offset 10 + 2 + 65522 = 65534
+		q := make([]string, n)
+		for k := range q {
+			q[k] = "6b65726e:-"
+		}
+		if i == 1 {
+			q[0] = "6b65726e:0" // + 2 bytes -> 65536
+		}
+		args = "sl= fl=" + strings.Join(q, "|") + " ll=1/0/0/g:5:1"
+		what = []string{"boundary-ok", "boundary-refused"}[i]
+	}
+	c.Stat("gtab.kind", what)
+	c.Stat("gtab.lists", fmt.Sprintf("sl:%v fl:%v ll:%v", !strings.Contains(args, "sl=nil"), !strings.Contains(args, "fl=nil"), !strings.Contains(args, "ll=nil")))
+	out := c.Case(Verdict, "otl.gtab.encode", args, true)
+	c.Stat("gtab.encode-outcome", outcomeClass(out))
+	if !strings.HasPrefix(out, "ok:") {
+		return
+	}
+	b := otlInfoFromFields(parseFields(args)).Encode()
+	o := c.Case(Verdict, "otl.gtab.read", "data="+hx(b), true)
+	c.Stat("gtab.read-outcome", "encoded:"+outcomeClass(o))
+	if len(b) > 4000 {
+		return
+	}
+	// header damage only (the lists have their own mutated streams)
+	for k := 0; k < 3; k++ {
+		m := append([]byte{}, b...)
+		mw := ""
+		switch r.Intn(7) {
+		case 0:
+			m[1] = byte(r.Intn(3))
+			mw = "major"
+		case 1:
+			m[3] = byte(r.Intn(3))
+			mw = "minor"
+		case 2:
+			j := Pick(r, []int{4, 6, 8})
+			m[j], m[j+1] = 0, 0
+			mw = "offset-0"
+		case 3:
+			j := Pick(r, []int{4, 6, 8})
+			m[j], m[j+1] = 0, byte(r.Intn(14))
+			mw = "offset-in-header"
+		case 4:
+			j := Pick(r, []int{4, 6, 8})
+			v := len(m) + Pick(r, []int{-1, 0, 1, 100})
+			m[j], m[j+1] = byte(v>>8), byte(v)
+			mw = "offset-at-end"
+		case 5:
+			m = m[:r.Intn(12)]
+			mw = "truncated-header"
+		default:
+			// version 1.1 with a FeatureVariations offset inserted is not what Encode writes; only flip minor
+			m[3] = 1
+			mw = "minor-1"
+		}
+		c.Stat("gtab.mutation", mw)
+		o := c.Case(Verdict, "otl.gtab.read", "data="+hx(m), true)
+		c.Stat("gtab.read-outcome", "mutated:"+outcomeClass(o))
 	}
 }
 
